@@ -84,16 +84,23 @@ def chk_point(sec_hex, k, lite=False):
                     viols.append(V("%s:wallet.%s_address:%s:raised" % (P, kind, nk), "%s_address raised %s for key %s" % (kind, a, sec_hex)))
                     continue
                 viols += judge_addr(a, kind, pt, testnet, True, "wallet")
-        for comp in (True, False):
-            for kind in ("p2pkh", "p2wpkh"):
-                if kind == "p2wpkh" and not comp:
-                    continue          # a witness program of an UNCOMPRESSED key is non-standard: the property does not say what it is
-                st, a = attempt(lambda: PublicKey.parse(secp.sec(pt, comp)).address(compressed=comp, testnet=testnet, addr_type=kind))
-                n += 1
-                if st != "ok":
-                    viols.append(V("%s:PublicKey.address:%s:raised" % (P, kind), "address(compressed=%r) raised %s" % (comp, a)))
-                    continue
-                viols += judge_addr(a, kind, pt, testnet, comp, "PublicKey.address" + ("" if comp else "(uncompressed)"))
+        # the key object may have been PARSED from either SEC form, built from the point or from the private key: the requested
+        # address form alone decides which encoding is hashed
+        makers = {"parse(compressed)": lambda: PublicKey.parse(secp.sec(pt, True)), "parse(uncompressed)": lambda: PublicKey.parse(secp.sec(pt, False))}
+        if k is not None and not lite:
+            from btc_hd_wallet.keys import PrivateKey
+            makers["PrivateKey.K"] = lambda: PrivateKey(k).K
+        for mname, mk_ in makers.items():
+            for comp in (True, False):
+                for kind in ("p2pkh", "p2wpkh"):
+                    if kind == "p2wpkh" and not comp:
+                        continue          # a witness program of an UNCOMPRESSED key is non-standard: the property does not say what it is
+                    st, a = attempt(lambda: mk_().address(compressed=comp, testnet=testnet, addr_type=kind))
+                    n += 1
+                    if st != "ok":
+                        viols.append(V("%s:PublicKey.address:%s:raised" % (P, kind), "%s.address(compressed=%r) raised %s" % (mname, comp, a)))
+                        continue
+                    viols += judge_addr(a, kind, pt, testnet, comp, "PublicKey.address" + ("" if comp else "(uncompressed)") + (":via-other-form" if ("uncompressed" in mname) == comp and mname != "PrivateKey.K" else ""))
     return n, viols
 
 
